@@ -725,6 +725,9 @@ func runC14(c *mon.Ctx) {
 		c14tags(k, scripts, langs)
 	})
 	c.Require("tags:all-languages-of-a-script", "tags:default-langsys", "tags:several-scripts")
+	for _, s := range scripts {
+		c.Require("tags:script-complete:" + s)
+	}
 
 	// ------------------------------------------------------------------
 	c.Stratum("post", c.N(1500, 150000), func(k *mon.Case) { c14post(k, c.Thorough()) })
@@ -993,6 +996,11 @@ func c14tags(k *mon.Case, scripts, langs []string) {
 			add(c14pair{s, l})
 		}
 		k.Class("tags:all-languages-of-a-script")
+		defer func() {
+			if !k.Failed() {
+				k.Class("tags:script-complete:" + s)
+			}
+		}()
 	} else {
 		ns := 1 + r.IntN(6)
 		if r.IntN(6) == 0 {
